@@ -20,30 +20,33 @@ def chain_methods(n):
 def r1(ctx):
     """conservation: every buffered row is put into exactly one partition"""
     hir = ctx.anchor_hir(PART)
-    fe = [c for c in walk_exprs(hir) if c["k"] == "MCall" and c["m"] == "for_each" and "raw_output_buffer" in render(c["recv"])]
-    loops = [x for x in walk_exprs(hir) if x["k"] == "Loop" and "raw_output_buffer" in render(x)]
-    if len(fe) != 1:
+    its = [it for it in find_iterations(hir) if "raw_output_buffer" in render(it["iter"])]
+    if len(its) != 1:
         ctx.violation("anchor/partition-iteration", PART, "iteration over raw_output_buffer not found")
         raise Abort()
-    ms, root = chain_methods(fe[0]["recv"])
+    it = its[0]
+    ms, root = chain_methods(it["iter"])
     ok = not (set(ms) & FILTERS) and render(root) == "self.raw_output_buffer"
     ctx.obligation(ok)
     if not ok:
-        ctx.violation("partition/iteration", ctx.where(PART, fe[0]), "the partitioning must visit every buffered row (%s)" % ms)
-    body = peel(fe[0]["args"][0], methods=False)
-    body = body["body"] if body["k"] == "Closure" else body
+        ctx.violation("partition/iteration", ctx.where(PART, it["node"]), "the partitioning must visit every buffered row (%s)" % ms)
+    body = it["body"]
+    row_ids = set(pat_binders(it["pat"]))
+
+    def mentions_row(n):
+        return any(x["k"] == "Path" and x.get("rk") == "Local" and x["res"] in row_ids for x in walk_exprs(n))
 
     def insertions(n):
-        return [c for c in walk_exprs(n) if c["k"] == "MCall" and c["m"] in ("push", "insert") and "item" in render(c)]
+        return [c for c in walk_exprs(n) if c["k"] == "MCall" and c["m"] in ("push", "insert") and any(mentions_row(a) for a in c["args"])]
 
     def paths(n):
-        """number of insertions of `item` on each path through n (if/else only); None if a path leaves early"""
+        """number of insertions of the row on each path through n; -100 marks a path that leaves early"""
         n = peel(n, methods=False)
         if n["k"] == "Block":
             tot = [0]
-            for s in n["stmts"] + ([n["expr"]] if "expr" in n else []):
-                r = paths(s)
-                tot = [a + b for a in tot for b in r]
+            for s_ in n["stmts"] + ([n["expr"]] if "expr" in n else []):
+                r = paths(s_)
+                tot = [a_ + b_ for a_ in tot for b_ in r]
             return tot
         if n["k"] == "If":
             t = paths(n["t"])
@@ -54,27 +57,42 @@ def r1(ctx):
             return [-100]
         if n["k"] == "Match" and n.get("src") == "Normal":
             out = []
-            for a in n["arms"]:
-                out += paths(a["body"])
+            c = len(insertions(n["scrut"]))
+            for a_ in n["arms"]:
+                out += [c + x for x in paths(a_["body"])]
             return out
+        if n["k"] == "Let" and n.get("init") is not None:
+            return paths(n["init"])
         return [len(insertions(n))]
 
     ps = paths(body)
     ok = all(p == 1 for p in ps)
     ctx.obligation(ok)
-    ctx.covered("paths through the per-row partitioning closure, insertions of the row on each", len(ps), distinct_keys=["paths:%d" % len(ps)],
+    ctx.covered("paths through the per-row partitioning body, insertions of the row on each", len(ps), distinct_keys=["paths:%d" % len(ps)],
                 sample={"insertions_per_path": ps}, exhaustive=True)
     if not ok:
         ctx.violation("partition/conservation", ctx.where(PART, body),
                       "a row must be inserted into exactly one partition on every path; insertions per path: %s" % ps)
-    # existing key -> push to that partition; new key -> new partition with this row
-    ifs = [x for x in walk_exprs(body) if x["k"] == "If" and "contains_key" in render(x["c"])]
-    ok = len(ifs) == 1 and "e" in ifs[0]
+    # existing key -> the row is pushed onto that key's partition; new key -> a new partition holding this row
+    ins = insertions(body)
+    pushes = [c for c in ins if c["m"] == "push"]
+    news = [c for c in ins if c["m"] == "insert"]
+    ok = len(pushes) == 1 and len(news) == 1
+
+    def side(c):
+        """'hit' / 'miss' / None: under which outcome of the key lookup the call runs"""
+        for g in guards_of(body, c) or []:
+            if g[0] == "if" and g[1]["k"] != "LetE" and "contains_key" in render(g[1]):
+                neg = render(peel(g[1], methods=False)).startswith("!")
+                return "hit" if (g[2] != neg) else "miss"
+            if g[0] == "if" and g[1]["k"] == "LetE" and any(w in render(g[1]["init"]) for w in ("get_mut", ".get(")):
+                return "hit" if ("Some" in render_pat(g[1]["pat"])) == g[2] else "miss"
+            if g[0] == "match" and any(w in render(g[1]) for w in ("get_mut", ".get(", "entry(")):
+                return "hit" if "Some" in render_pat(g[2]) or "Occupied" in render_pat(g[2]) else "miss"
+        return None
     if ok:
-        t, e = render(ifs[0]["t"]), render(ifs[0]["e"])
-        neg = render(peel(ifs[0]["c"], methods=False)).startswith("!")
-        hit, miss = (e, t) if neg else (t, e)
-        ok = "get_mut(&key)" in hit and ".push(item.clone())" in hit and "result.insert(key" in miss and "item.clone()" in miss
+        ok = side(pushes[0]) == "hit" and side(news[0]) == "miss" and "key" in render(news[0]["args"][0]) and \
+            ("get_mut" in render(pushes[0]["recv"]) or root_local(pushes[0]["recv"]) is not None)
     ctx.obligation(ok)
     if not ok:
         ctx.violation("partition/branches", ctx.where(PART, body), "an existing key must receive the row, a new key must start a partition with it")
@@ -117,36 +135,67 @@ def r2(ctx):
 
 def r3(ctx):
     """one output row per partition, aggregates over that partition, key values bound by position"""
+    import sem
     hir = ctx.anchor_hir(LSR)
-    fe = [c for c in walk_exprs(hir) if c["k"] == "MCall" and c["m"] == "for_each" and "buffer_partitions" in render(c["recv"])]
-    if len(fe) != 1:
+    locs = Locals(hir)
+    its = [it for it in find_iterations(hir) if "buffer_partitions" in render(it["iter"])]
+    if len(its) != 1:
         ctx.violation("anchor/group-loop", LSR, "per-partition loop not found")
         raise Abort()
-    ms, root = chain_methods(fe[0]["recv"])
+    it = its[0]
+    ms, root = chain_methods(it["iter"])
     ok = not (set(ms) & FILTERS)
-    body = peel(fe[0]["args"][0], methods=False)["body"]
+    body = it["body"]
     pushes = [c for c in walk_exprs(body) if c["k"] == "MCall" and c["m"] == "push" and render(c["recv"]) == "results"]
     ok = ok and len(pushes) == 1 and not any(t[0] in ("if", "loop") for t in guards_of(body, pushes[0]))
     ctx.obligation(ok)
     if not ok:
-        ctx.violation("groups/one-row-per-partition", ctx.where(LSR, fe[0]), "every partition must yield exactly one result row")
+        ctx.violation("groups/one-row-per-partition", ctx.where(LSR, it["node"]), "every partition must yield exactly one result row")
     # partitions come from partition_output_buffer over the whole buffer
     ok = len(calls_to(hir, PART)) == 1
     ctx.obligation(ok)
     if not ok:
         ctx.violation("groups/partition-call", ctx.where(LSR), "grouped output must be computed from partition_output_buffer")
+    # the loop variable is a (key values, rows) pair: either one binder used as f.0 / f.1 or a destructuring pattern
+    binders = pat_binders(it["pat"])
+    blocs = Locals(body)
+
+    def component(n):
+        """0 / 1: which component of the partition pair an expression is rooted in"""
+        n = peel(blocs.chase(n))
+        while n["k"] in ("MCall", "Index", "Cast", "Un"):
+            n = peel(blocs.chase(n["recv"] if n["k"] == "MCall" else n["e"]))
+        if n["k"] == "Field" and n["name"] in ("0", "1"):
+            base = peel(blocs.chase(n["e"]))
+            if base["k"] == "Path" and base.get("rk") == "Local" and base["res"] in binders[:1]:
+                return int(n["name"])
+        if n["k"] == "Path" and n.get("rk") == "Local" and len(binders) == 2 and n["res"] in binders:
+            return binders.index(n["res"])
+        return None
     # aggregates are evaluated over the partition's rows
     ev = [c for c in walk_exprs(body) if c["k"] == "MCall" and c["m"] == "get_column_expr_value"]
-    ok = len(ev) == 1 and render(ev[0]["args"][3]) == "Option::Some(f.1)" and render(ev[0]["args"][0]).endswith("None")
+    ok = len(ev) == 1 and render(ev[0]["args"][0]).endswith("None")
+    if ok:
+        a3 = peel(ev[0]["args"][3], methods=False)
+        ok = a3["k"] == "Call" and a3.get("ctor") and short(a3["callee"], 1) == "Some" and component(a3["args"][0]) == 1
     ctx.obligation(ok)
     if not ok:
         ctx.violation("groups/aggregate-scope", ctx.where(LSR, body), "a group's columns must be evaluated over that group's rows only (buffer_data = the partition)")
     # key columns: file_map[k_i] = partition key component i
     ins = [c for c in walk_exprs(body) if c["k"] == "MCall" and c["m"] == "insert" and render(c["recv"]) == "file_map"]
-    ok = len(ins) == 1 and render(ins[0]["args"][0]) == "k.clone()" and "f.0.get(i)" in render(ins[0]["args"][1])
+    ok = len(ins) == 1
     if ok:
-        g = guards_of(body, ins[0])
-        ok = any(t[0] == "match" and "enumerate" in render(t[1]) and "group_keys" in render(t[1]) for t in g)
+        key_its = [i2 for i2 in find_iterations(body) if "group_keys" in render(i2["iter"]) and "enumerate" in render(i2["iter"]) and
+                   any(y is ins[0] for y in walk_exprs(i2["body"]))]
+        ok = len(key_its) == 1 and len(pat_binders(key_its[0]["pat"])) == 2
+        if ok:
+            i_id, k_id = pat_binders(key_its[0]["pat"])
+            gets = [c for c in walk_exprs(ins[0]["args"][1]) if c["k"] == "MCall" and c["m"] == "get"]
+            idx = [c for c in walk_exprs(ins[0]["args"][1]) if c["k"] == "Index"]
+            kexpr = peel(ins[0]["args"][0])
+            ok = kexpr["k"] == "Path" and kexpr.get("res") == k_id and \
+                ((len(gets) == 1 and component(gets[0]["recv"]) == 0 and peel(gets[0]["args"][0]).get("res") == i_id) or
+                 (len(idx) == 1 and component(idx[0]["e"]) == 0 and peel(idx[0]["i"]).get("res") == i_id))
     ctx.obligation(ok)
     if not ok:
         ctx.violation("groups/key-binding", ctx.where(LSR, body), "the i-th grouping expression must be bound to the i-th component of the partition key")
@@ -155,18 +204,31 @@ def r3(ctx):
     ctx.obligation(ok)
     if not ok:
         ctx.violation("groups/key-names", ctx.where(LSR), "group key names must be the texts of all grouping expressions, in order")
-    # ordering of group rows: direction handling is symmetric in the numeric and the textual branch
+    # ordering of group rows: ascending keys compare a with b, descending ones b with a, for numbers and for text alike
     sb = [c for c in walk_exprs(hir) if c["k"] == "MCall" and c["m"] == "sort_by"]
     ok = len(sb) == 1
     if ok:
-        ifs = [x for x in walk_exprs(sb[0]) if x["k"] == "If" and render(peel(x["c"], methods=False)) == "directions[idx]" and "e" in x]
-        ok = len(ifs) == 2
-        for x in ifs:
-            t, e = peel_result(x["t"]), peel_result(x["e"])
-            rt, re_ = render(t), render(e)
-            ok = ok and t["k"] == "MCall" and t["m"] == "cmp" and e["k"] == "MCall" and e["m"] == "cmp" and \
-                render(t["recv"]) == render(peel(e["args"][0])) and render(peel(t["args"][0])) == render(e["recv"]) and rt != re_ and \
-                render(t["recv"]).startswith("a")
+        cl = peel(sb[0]["args"][0], methods=False)
+        ok = cl["k"] == "Closure" and len(cl.get("params") or []) == 2
+    if ok:
+        a_id, b_id = [pat_binders(p_)[0] if pat_binders(p_) else None for p_ in cl["params"]]
+        slocs = Locals(sb[0])
+
+        def is_direction(c):
+            r = render(slocs.chase(peel(c, methods=False)))
+            return "directions[" in r or "directions.get(" in r or "ordering_asc" in r
+        ifs = find_ifs(sb[0], is_direction)
+        ok = len(ifs) >= 2
+        for x, asc, desc in ifs:
+            if asc is None or desc is None:
+                ok = False
+                continue
+            t, e = peel_result(asc), peel_result(desc)
+            okx = t["k"] == "MCall" and t["m"] in ("cmp", "partial_cmp") and e["k"] == "MCall" and e["m"] == t["m"]
+            if okx:
+                okx = sem.root_res(t["recv"], slocs) == a_id and sem.root_res(t["args"][0], slocs) == b_id and \
+                    sem.root_res(e["recv"], slocs) == b_id and sem.root_res(e["args"][0], slocs) == a_id
+            ok = ok and okx
     ctx.obligation(ok)
     if not ok:
         ctx.violation("groups/ordering-direction", ctx.where(LSR), "group rows must be compared a-vs-b for ascending keys and b-vs-a for descending ones, for numbers and for text alike")
